@@ -189,7 +189,7 @@ class Monitor:
         self.prefix = prefix
         self.step_info = None  # set by workloads: dict merged into witnesses
         self._inplace_now = False
-        self._dest_pre, self._rest, self._rest_pre = None, [], []
+        self._dest_pre, self._rest, self._rest_pre, self._dest_before = None, [], [], None
 
     # -- install / uninstall ------------------------------------------------------------------
     def install(self):
@@ -314,7 +314,7 @@ class Monitor:
         # ---- phase 1: fingerprints + shadow execution (monitor busy)
         self.local.busy = True
         shadow_out, shadow_exc, pre_fp, okinds, sh_args, sh_kwargs = None, None, None, None, None, None
-        inpl = (None, [], [])
+        inpl = (None, [], [], None)
         inplace = name in INPLACE or _inplace_flag(func, args, kwargs)
         try:
             okinds = [k for k in (kind_of(a) for a in list(args) + list(kwargs.values())) if k]
@@ -322,7 +322,9 @@ class Monitor:
             pre_fp = [fp.tensor_fp(a) for a in leaves if isinstance(a, torch.Tensor)] if not inplace else None
             if inplace and args and isinstance(args[0], torch.Tensor):
                 rest = [a for a in leaves[1:] if isinstance(a, torch.Tensor) and a is not args[0]]
-                inpl = (fp.tensor_fp(args[0]), rest, [fp.tensor_fp(a) for a in rest])
+                # a pristine copy of a float destination, in its own layout, for the second (raw layout) shadow
+                before = args[0].detach().clone() if not is_q(args[0]) else None
+                inpl = (fp.tensor_fp(args[0]), rest, [fp.tensor_fp(a) for a in rest], before)
             with torch.no_grad():
                 sh_args, sh_kwargs = pytree.tree_map(lambda x: shadow_of(x) if is_q(x) else (
                     x.detach().clone() if isinstance(x, torch.Tensor) and inplace else
@@ -353,7 +355,7 @@ class Monitor:
         # ---- phase 3: judgement
         self.local.busy = True
         try:
-            self._dest_pre, self._rest, self._rest_pre = inpl
+            self._dest_pre, self._rest, self._rest_pre, self._dest_before = inpl
             self._inplace_now = inplace
             self._judge(name, func, args, kwargs, leaves, okinds, pre_fp, sh_args, sh_kwargs, shadow_out, shadow_exc, out,
                         real_exc, depth)
@@ -474,6 +476,12 @@ class Monitor:
             a2, k2 = pytree.tree_map(lambda x: oracles.plain(fp.unwrap_param(x).dequantize()).clone() if is_q(x) else (
                 x.detach().clone() if isinstance(x, torch.Tensor) and self._inplace_now else
                 (x.detach() if isinstance(x, torch.Tensor) else x)), (args, kwargs))
+            if self._inplace_now:
+                if is_q(args[0]):
+                    return None  # the destination was (or should have been) rewritten: there is no pristine raw operand
+                if self._dest_before is None:
+                    return None
+                a2 = [self._dest_before.clone()] + list(a2[1:])
             with torch._C.DisableTorchFunctionSubclass():
                 out = func(*a2, **k2)
                 if self._inplace_now:
